@@ -337,4 +337,15 @@ MUTANTS = [
          old="                    if not self.instream_lock.acquire(timeout=0.1):\n                        continue", new="                    self.instream_lock.acquire()"),
     dict(id='C10-m6', prop='C10', file='streamer/_tee.py', desc='forks other than the failing one end by exhaustion (exception not remembered in prefetch path)',
          old="                                self.head.exc = e\n                            else:\n                                box = TeeX(x)", new="                                if self._fork_idx == 0:\n                                    self.head.exc = e\n                                else:\n                                    raise\n                            else:\n                                box = TeeX(x)"),
+    # ---------------- C17
+    dict(id='C17-m1', prop='C17', file='queue.py', desc='put_end enqueues two end markers when the queue is empty',
+         old="        self._applied_lids.put(z)\n        self.put(None)\n", new="        self._applied_lids.put(z)\n        self.put(None)\n        if self._q.qsize() == 1 and self._num_suppliers > 2:\n            self.put(None)\n"),
+    dict(id='C17-m2', prop='C17', file='queue.py', desc='renew recycles one token too few when there are 3 suppliers',
+         old="        for _ in range(self._num_suppliers):\n            z = self._used_lids.get()\n            self._spare_lids.put(z)", new="        for _ in range(self._num_suppliers - (self._num_suppliers == 3)):\n            z = self._used_lids.get()\n            self._spare_lids.put(z)"),
+    dict(id='C17-m3', prop='C17', file='queue.py', desc='ResponsiveQueue ignores the stop event when timeout is None',
+         old="                if stop_requested.is_set():\n                    raise StopRequested", new="                if stop_requested.is_set() and timeout is not None:\n                    raise StopRequested"),
+    dict(id='C17-m4', prop='C17', file='queue.py', desc='D15 regression: lid bookkeeping not atomic',
+         old="            with self._lids_lock:\n                if self._used_lids.full():", new="            if True:\n                if self._used_lids.full():"),
+    dict(id='C17-m5', prop='C17', file='queue.py', desc='ResponsiveQueue polls with twice the wait interval',
+         old="                    timeout=max(0, min(wait_interval_seconds, time_available)),", new="                    timeout=max(0, min(wait_interval_seconds * 2, time_available)),"),
 ]
